@@ -200,6 +200,7 @@ def run_driver(work, binp, defs_path, scenarios, env=None, maxstack=0, step_time
         outcome = "timeout" if p.returncode == 3 else "crash"
         rec = {"scen": si, "sid": sc["sid"], "step": k, "ev": EV_OF_OP.get(st.get("op"), "Unknown"),
                "ty": st.get("ty", ""), "v": st.get("v", 0), "buflen": 0, "orig": st.get("orig", -1),
+               "in": st.get("in", []),
                "obs": {"out": outcome, "rc": p.returncode,
                        "stderr": p.stderr.decode(errors="replace")[:600]}}
         records.append(rec)
